@@ -315,6 +315,26 @@ func (w *world) callArgs(s callSpec, from common.Address, gas uint64) []byte {
 	}
 	d := hexutil.Bytes(s.data)
 	args.Data = &d
+	q := w.c.QueryCtx()
+	feeCap := new(big.Int).Mul(w.c.BaseFee(q), Bi(2))
+	switch s.price {
+	case "legacy":
+		args.GasPrice = (*hexutil.Big)(feeCap)
+	case "1559":
+		args.MaxFeePerGas = (*hexutil.Big)(feeCap)
+		args.MaxPriorityFeePerGas = (*hexutil.Big)(Bi(0))
+	}
+	if len(s.al) > 0 {
+		al := s.al
+		args.AccessList = &al
+	}
+	if s.extras {
+		in := hexutil.Bytes(s.data)
+		args.Input = &in
+		n := hexutil.Uint64(w.c.Nonce(q, from))
+		args.Nonce = &n
+		args.ChainID = (*hexutil.Big)(w.c.EvmChainID())
+	}
 	bz, err := json.Marshal(args)
 	require.NoError(w.t, err)
 	return bz
@@ -387,10 +407,18 @@ func (w *world) signedTx(s callSpec, si int, gas uint64, nonceOff uint64) ([]byt
 	if value == nil {
 		value = Bi(0)
 	}
-	bz, msg, err := c.EthTxBytes(acct, &ethtypes.DynamicFeeTx{
-		ChainID: c.EvmChainID(), Nonce: c.Nonce(q, acct.GetEthAddress()) + nonceOff, GasTipCap: Bi(0),
-		GasFeeCap: new(big.Int).Mul(c.BaseFee(q), Bi(2)), Gas: gas, To: s.to, Value: value, Data: s.data,
-	})
+	nonce := c.Nonce(q, acct.GetEthAddress()) + nonceOff
+	feeCap := new(big.Int).Mul(c.BaseFee(q), Bi(2))
+	var txData ethtypes.TxData
+	switch {
+	case s.price == "legacy" && len(s.al) > 0:
+		txData = &ethtypes.AccessListTx{ChainID: c.EvmChainID(), Nonce: nonce, GasPrice: feeCap, Gas: gas, To: s.to, Value: value, Data: s.data, AccessList: s.al}
+	case s.price == "legacy":
+		txData = &ethtypes.LegacyTx{Nonce: nonce, GasPrice: feeCap, Gas: gas, To: s.to, Value: value, Data: s.data}
+	default:
+		txData = &ethtypes.DynamicFeeTx{ChainID: c.EvmChainID(), Nonce: nonce, GasTipCap: Bi(0), GasFeeCap: feeCap, Gas: gas, To: s.to, Value: value, Data: s.data, AccessList: s.al}
+	}
+	bz, msg, err := c.EthTxBytes(acct, txData)
 	require.NoError(w.t, err)
 	return bz, msg
 }
